@@ -345,7 +345,9 @@ Fixpoint hex_to_int (s : bytes) (acc : Z) : option Z :=
   end.
 Definition s2k_iterations (params : bytes) : res Z :=
   if negb (length params =? 8)%nat then Err 50
-  else match hex_to_int params 0 with Some i => Ok i | None => Err 51 end.
+  else match hex_to_int params 0 with
+       | Some i => if (i =? 0) || (16777216 <? i) then Err 53 else Ok i   (* bounded as MIT krb5 does: 1..2^24 *)
+       | None => Err 51 end.
 
 Definition string_to_key (et : Z) (password salt params : bytes) : res bytes :=
   match et_family et with
